@@ -459,14 +459,19 @@ def check_sample_becomes_row(prog: Program, rep, F: IntegrateFacts, rule: str) -
     tc = F.mod
     btd = prog.cls(C.M_TC, 'BaseTrajData') if 'BaseTrajData' in tc.classes else None
 
+    samples: List[int] = []
+
     def symcall(ev_, fv, args, kwargs, st_):
         if fv.path.endswith('.' + DENSITY_CALL):
             return Tup([S('rho'), S('a')])
         if fv.path.endswith('.should_record'):
             fields = {'time': S('dt'), 'position': C.mk_vec(ev_, st_, prog, 'dx', 'dy', 'dz'),
                       'velocity': C.mk_vec(ev_, st_, prog, 'dvx', 'dvy', 'dvz'), 'mach': S('dm')}
-            st_.env['$sampled'] = TRUE_MARK
-            return ev_.new_inst(st_, btd, fields) if btd is not None else SymObj('data')
+            if btd is None:
+                raise Undecided('BaseTrajData vanished')
+            smp = ev_.new_inst(st_, btd, fields)
+            samples.append(smp.oid)
+            return smp
         return None
     ev = Evaluator(prog, hooks={'symcall': symcall, 'call:_calculate_by_curve_and_mach_list': lambda ev_, func, args, kwargs, st_, sv: S('Cd'),
                                 **C.no_wrap_hooks()},
@@ -481,8 +486,9 @@ def check_sample_becomes_row(prog: Program, rep, F: IntegrateFacts, rule: str) -
     problems = []
     n_leaf = 0
     for _path, leaf in leaves(tree):
-        if leaf.kind == 'raise' or not isinstance(lst, Lst) or leaf.state.env.get('$sampled') is not TRUE_MARK:
-            continue            # (a request without rows does not ask the filter at all)
+        holds_sample = any(isinstance(v_, Inst) and v_.oid in samples for v_ in leaf.state.env.values())
+        if leaf.kind == 'raise' or not isinstance(lst, Lst) or not holds_sample:
+            continue            # (a request without rows does not ask the filter at all: no sample exists on this path)
         n_leaf += 1
         items = leaf.state.heap[lst.oid]['$items']
         new_rows = [x for x in items if isinstance(x, SymObj) and x.path.startswith('create_trajectory_row')]
